@@ -95,7 +95,7 @@ def run(chk):
     rnd = common.rng_for(chk.seed, "C03")
     n = common.tier_n(chk.tier, 60, 400)
     cases = [c for c in xc.corpus_cases("C03")]
-    cases += [xg.gen_case(rnd, "multipair", "small" if i % 2 else "medium") for i in range(n)]
+    cases += [xg.gen_case(rnd, "multipair" if i % 4 else "wide", "small" if i % 2 else "medium") for i in range(n)]
     items, owners = [], []
     ref = []
     import multiprocessing
